@@ -8,7 +8,7 @@ from pyvc.solve import Obligation
 from contracts.decoder_c import DecodeTask, init_tasks
 
 
-def purity_lemmas(modname):
+def purity_lemmas(modname, prop='C16'):
     """Syntactic frame scan: functions of the module never write module globals, class attributes or (for the
     generated code) anything but their own locals and the objects they allocate."""
     def build(tier):
@@ -52,16 +52,19 @@ def purity_lemmas(modname):
                         b = b.value
                     if isinstance(b, ast.Name) and b.id not in local and b.id in module_names:
                         bad.append(f'mutating call {n.func.attr} on module-level {b.id}')
-            out.append(Obligation(f'C16/frame-scan/{modname}.{label}/writes-no-module-or-class-state', [], z3.BoolVal(not bad), kind='frame',
+            out.append(Obligation(f'{prop}/frame-scan/{modname}.{label}/writes-no-module-or-class-state', [], z3.BoolVal(not bad), kind='frame',
                                   meta={'note': '; '.join(sorted(set(bad)))[:200]}))
         for name, fi in mod.functions.items():
             if modname == 'pgns' and not name.startswith(('decode_pgn', 'encode_pgn', 'is_fast_pgn', 'lookup_encode', 'lookup_field_type')):
                 continue
             scan(fi, name)
         for cname, ci in mod.classes.items():
-            mutable = [k for k, v in ci.class_attrs.items() if isinstance(v, (ast.Dict, ast.List, ast.Set, ast.Call))]
+            mutable = [k for k, v in ci.class_attrs.items() if isinstance(v, (ast.Dict, ast.List, ast.Set, ast.Call, ast.ListComp, ast.DictComp, ast.SetComp))]
+            if not ci.is_dataclass:
+                # annotated class-level assignments (`data: dict[str, X] = {}`) are class attributes too
+                mutable += [k for k, v in ci.fields if isinstance(v, (ast.Dict, ast.List, ast.Set, ast.Call, ast.ListComp, ast.DictComp, ast.SetComp))]
             if not ('Enum' in ci.bases):
-                out.append(Obligation(f'C16/frame-scan/{modname}.{cname}/no-mutable-class-attributes', [], z3.BoolVal(not mutable), kind='frame', meta={'note': f'{mutable}'}))
+                out.append(Obligation(f'{prop}/frame-scan/{modname}.{cname}/no-mutable-class-attributes', [], z3.BoolVal(not mutable), kind='frame', meta={'note': f'{mutable}'}))
             for mname, fi in ci.methods.items():
                 scan(fi, f'{cname}.{mname}')
         return out
